@@ -215,6 +215,8 @@ pub fn convert(src: &str) -> String {
                     continue;
                 }
                 let name = cur.get_token_nest('{', '}');
+                // keep the line breaks of the definition so that line numbers in messages match the source
+                res.push_str(&"\n".repeat(name.matches('\n').count()));
                 cur.skip_space();
                 if cur.eq_char('=') {
                     cur.next();
@@ -224,6 +226,7 @@ pub fn convert(src: &str) -> String {
                     continue;
                 }
                 let value = cur.get_token_nest('{', '}');
+                res.push_str(&"\n".repeat(value.matches('\n').count()));
                 items.set_item(&name, &value);
                 items.sort_items();
                 continue;
